@@ -61,6 +61,9 @@ SOURCES = [
     GEN + "_consumer_power_formula.py",
     GEN + "_producer_power_formula.py",
     GEN + "_battery_power_formula.py",
+    GEN + "_pv_power_formula.py",
+    GEN + "_ev_charger_power_formula.py",
+    GEN + "_chp_power_formula.py",
 ]
 
 CATS = {"NONE": "none", "GRID": "grid", "METER": "meter", "INVERTER": "inverter", "BATTERY": "battery",
@@ -127,8 +130,10 @@ def ty(e) -> str:  # noqa: C901
     if tag == "flatmap":
         return e[3]
     if tag in ("first", "optfirst", "last"):
-        return "Comp"
-    if tag in ("droplast", "lapp"):
+        return "Nat" if ty(e[1]) == "LNat" else "Comp"
+    if tag == "tail":
+        return ty(e[1])
+    if tag in ("droplast", "lapp", "dedup"):
         return ty(e[1])
     if tag in ("call", "app"):
         return e[3]
@@ -285,7 +290,7 @@ def IsEmpty(lst):
         return FALSE
     if lst[0] == "filter":          # no element passes  <=>  all fail
         return All(lst[1], ("lam", lst[2][1], Not(lst[2][2])))
-    if lst[0] == "map":
+    if lst[0] in ("map", "dedup"):
         return IsEmpty(lst[1])
     if lst[0] == "union":
         return And(IsEmpty(lst[1]), IsEmpty(lst[2]))
@@ -362,7 +367,8 @@ def lam_apply(lam, arg):
 
 
 def All(lst, lam):
-    body = lam[2]
+    body = blake(lam[2]) if "blake" in globals() else lam[2]
+    lam = ("lam", lam[1], body)
     if body == TRUE or lst[0] == "nil":
         return TRUE
     if body[0] == "and":            # all (p ∧ q) = all p ∧ all q   (canonical: one atom per conjunct)
@@ -469,6 +475,10 @@ def pr(e) -> str:  # noqa: C901
         return f"G.predsOfBat {paren(pr(e[1]))}"
     if tag == "allcomps":
         return "G.comps"
+    if tag in ("first", "optfirst") and ty(e[1]) == "LNat":
+        return f"{paren(pr(e[1]))}.headD 0"
+    if tag == "tail":
+        return f"{paren(pr(e[1]))}.tail"
     if tag in ("first", "optfirst"):
         return f"firstComp {paren(pr(e[1]))}"
     if tag == "last":
@@ -477,6 +487,8 @@ def pr(e) -> str:  # noqa: C901
         return f"{paren(pr(e[1]))}.dropLast"
     if tag == "lapp":
         return f"{paren(pr(e[1]))} ++ {paren(pr(e[2]))}"
+    if tag == "dedup":
+        return f"{paren(pr(e[1]))}.eraseDups"
     if tag == "isempty":
         return f"{paren(pr(e[1]))}.isEmpty"
     if tag == "leneq":
@@ -545,6 +557,10 @@ def pr(e) -> str:  # noqa: C901
         return f"[({pr(e[1])}, {pr(e[2])})]"
     if tag == "ppair":
         return f"({pr(e[1])}, {pr(e[2])})"
+    if tag == "dget":
+        return f"CDict.get {paren(pr(e[1]))} {paren(pr(e[2]))}"
+    if tag == "fbof":
+        return f"Graph.fbPairs {paren(pr(e[1]))}"
     if tag == "dictitems":
         return pr(e[1])
     if tag == "dictkeys":
@@ -863,6 +879,9 @@ class Interp:  # pylint: disable=too-many-public-methods
                 kn = s.known(cb)
                 if kn is not None:
                     return self.ev(n.body if kn else n.orelse, s, k)
+                if not self.is_boolish(n.body) or not self.is_boolish(n.orelse):
+                    # a conditional expression that selects a collection / component is the `if` statement it abbreviates
+                    return self.fork(cb, s, lambda t: self.ev(n.body, t, k), lambda t: self.ev(n.orelse, t, k))
                 return self.ev(n.body, s, both)
             return self.ev(n.test, st, after_test)
         if isinstance(n, ast.NamedExpr):
@@ -893,6 +912,25 @@ class Interp:  # pylint: disable=too-many-public-methods
         if isinstance(n, ast.Starred):
             raise Unsupported("starred expression outside a call")
         raise Unsupported(f"expression {type(n).__name__}")
+
+    @staticmethod
+    def is_boolish(n: ast.expr) -> bool:
+        """syntactically a truth value (comparison, not, and/or of such, True/False, a call of a predicate `is_*`)"""
+        if isinstance(n, ast.Constant):
+            return isinstance(n.value, bool)
+        if isinstance(n, ast.Compare):
+            return True
+        if isinstance(n, ast.UnaryOp) and isinstance(n.op, ast.Not):
+            return True
+        if isinstance(n, ast.BoolOp):
+            return all(Interp.is_boolish(v) for v in n.values)
+        if isinstance(n, ast.IfExp):
+            return Interp.is_boolish(n.body) and Interp.is_boolish(n.orelse)
+        if isinstance(n, ast.Call):
+            f = n.func
+            name = f.attr if isinstance(f, ast.Attribute) else f.id if isinstance(f, ast.Name) else ""
+            return name.startswith(("is_", "_is_", "all", "any")) or name in ("bool",)
+        return False
 
     def ev_seq(self, nodes: list, st: State, k, acc=None):
         acc = acc or []
@@ -1008,6 +1046,8 @@ class Interp:  # pylint: disable=too-many-public-methods
     def attr(self, o, name: str, st: State):  # noqa: C901  pylint: disable=too-many-return-statements,too-many-branches
         if isinstance(o, tuple) and o and o[0] in ("dslot", "built", "cfg", "threaded", "enumerate", "exc"):
             return ("meth", o, name)
+        if isinstance(o, tuple) and o and o[0] == "modattr":
+            return ("modattr", o[1] + "." + o[2], name)
         if isinstance(o, tuple) and o[0] not in ("builtin", "module", "prim", "meth", "pmeth") and ty(o) == "Comp":
             if name == "component_id":
                 return Fld(o, "id")
@@ -1060,6 +1100,8 @@ class Interp:  # pylint: disable=too-many-public-methods
             return ("meth", o, name)
         if isinstance(o, tuple) and o[0] == "module":
             return ("modattr", o[1], name)
+        if isinstance(o, tuple) and o[0] == "modattr":
+            return ("modattr", o[1] + "." + o[2], name)
         if isinstance(o, tuple) and o[0] not in ("builtin", "prim", "meth", "pmeth", "modattr"):
             return ("meth", o, name)          # method of an immutable symbolic collection
         if isinstance(o, Py):
@@ -1236,6 +1278,8 @@ class Interp:  # pylint: disable=too-many-public-methods
 
     def as_list(self, v, st: State):
         """The symbolic collection behind a value (reference, symbolic list, constant)."""
+        if isinstance(v, tuple) and v and v[0] == "dslot" and len(v) == 3:
+            return ("dget", st.heap[v[1]], v[2])
         if isinstance(v, Ref):
             need(v.kind in ("set", "list"), f"collection expected, got {v.kind}")
             return st.heap[v]
@@ -1378,8 +1422,11 @@ class Interp:  # pylint: disable=too-many-public-methods
             acc = self.as_list(init, st)
             need(acc[0] == "nil", "reduce: initial value is not the empty set")
             return self.new_ref("set", ("flatmap", lst[1], lst[2], "LComp"), st, k)
-        if (mod, name) == ("itertools", "chain"):
-            raise Unsupported("itertools.chain")
+        if (mod, name) == ("itertools.chain", "from_iterable"):
+            (a,) = args
+            lst = self.as_list(a, st)
+            need(lst[0] == "map" and ty(lst) == "LLComp", "chain.from_iterable over something other than sets of components")
+            return k(("flatmap", lst[1], lst[2], "LComp"), st)
         raise Unsupported(f"{mod}.{name}")
 
     def is_union_fn(self, f, st: State) -> bool:
@@ -1668,7 +1715,9 @@ class Interp:  # pylint: disable=too-many-public-methods
                 return k(Opaque(o.what + "[]"), s)
             raise Unsupported(f"subscript of {o!r}")
         if isinstance(sl, ast.Slice):
-            raise Unsupported("slice")
+            need(sl.upper is None and sl.step is None and isinstance(sl.lower, ast.Constant) and sl.lower.value == 1
+                 and isinstance(o, Ref) and o.kind in ("list", "set"), "slice other than <list>[1:]")
+            return k(("tail", st.heap[o]), st)
         return self.ev(sl, st, idx)
 
     def binop(self, op, a, b, st: State, k):
@@ -1754,15 +1803,25 @@ class Interp:  # pylint: disable=too-many-public-methods
                 c2 = And(*[as_bool(self.pure(c, s2)) for c in g2.ifs])
                 elt = self.to_ir(self.pure(n.elt, s2))
                 inner = Filter(inner_it, ("lam", y[1], c2))
-                if elt != y:
-                    inner = Map(inner, ("lam", y[1], elt), self.list_ty(elt))
-                res = ("flatmap", base, ("lam", x[1], inner), ty(inner))
+                if elt != y and not free_in(elt, x[1]):
+                    # canonical: map after the union   (⋃ₓ f(M x) = f(⋃ₓ M x))
+                    res = Map(("flatmap", base, ("lam", x[1], inner), ty(inner)), ("lam", y[1], elt), self.list_ty(elt))
+                else:
+                    if elt != y:
+                        inner = Map(inner, ("lam", y[1], elt), self.list_ty(elt))
+                    res = ("flatmap", base, ("lam", x[1], inner), ty(inner))
             else:
                 threaded = self.threaded_comp(n, g, it, x, s)
                 if threaded is not None:
                     val, s = threaded
                     return k(val, s)
-                elt = self.to_ir(self.pure(n.elt, s1))
+                raising = self.comp_with_raise(n, base, x, s1, s, k)
+                if raising is not None:
+                    return raising
+                elt = self.pure(n.elt, s1)
+                if isinstance(elt, tuple) and elt and elt[0] == "dslot" and len(elt) == 3:
+                    elt = ("dget", s1.heap[elt[1]], elt[2])
+                elt = self.to_ir(elt)
                 res = base if elt == x else Map(base, ("lam", x[1], elt), self.list_ty(elt))
             if isinstance(n, ast.SetComp):
                 return self.new_ref("set", res, s, k)
@@ -1771,7 +1830,46 @@ class Interp:  # pylint: disable=too-many-public-methods
             return k(res, s)
         return self.ev(g.iter, st, with_iter)
 
+    def comp_with_raise(self, n, base, x, s1: State, st: State, k):
+        """`{f(x) for x in l}` where f may raise: raises iff it raises for some element."""
+        tree = self.ev(n.elt, s1, lambda v, s2: leaf("val", v, s2))
+        kinds = {lf[2] for lf in leaves(tree) if lf[1] == "raise"}
+        if not kinds:
+            return None
+        need(len(kinds) == 1, "a comprehension raises two kinds of errors")
+        (kind,) = kinds
+        for lf in leaves(tree):
+            need(lf[1] in ("val", "raise"), "comprehension element")
+            for r, val in st.heap.items():
+                need(lf[3].heap.get(r) == val, "side effect inside a comprehension")
+
+        def hits(tr):
+            if tr[0] == "br":
+                return Ite(tr[1], hits(tr[2]), hits(tr[3]))
+            return TRUE if tr[1] == "raise" else FALSE
+
+        def val(tr):
+            if tr[0] == "br":
+                a, b = val(tr[2]), val(tr[3])
+                return b if a is None else a if b is None else Ite(tr[1], a, b)
+            return None if tr[1] == "raise" else self.to_ir(tr[2])
+        elt = val(tree)
+        need(elt is not None, "a comprehension whose element always raises")
+        res = base if elt == x else Map(base, ("lam", x[1], elt), self.list_ty(elt))
+        if isinstance(n, ast.SetComp) and ty(res) == "LNat":
+            res = ("dedup", res)
+
+        def ok(t):
+            if isinstance(n, ast.SetComp):
+                return self.new_ref("set", res, t, k)
+            if isinstance(n, ast.ListComp):
+                return self.new_ref("list", res, t, k)
+            return k(res, t)
+        return self.fork(canon_nonempty(Any(base, ("lam", x[1], hits(tree)))), st, lambda t: leaf("raise", kind, t), ok)
+
     def deref_iter(self, it, st: State):
+        if isinstance(it, tuple) and it and it[0] == "dslot" and len(it) == 3:
+            return ("dget", st.heap[it[1]], it[2])
         if isinstance(it, Ref):
             if it.kind == "pylist":
                 return Py(tuple(st.heap[it]))
@@ -2362,7 +2460,8 @@ class InterpLoops(InterpStmts):  # pylint: disable=too-many-public-methods
         if not flags and terminal:
             outs = {(lf[1], repr(lf[2])) for _, lf in terminal}
             cexprs = [And(*[(c if pol else Not(c)) for c, pol in conds]) for conds, _ in terminal]
-            if len(outs) == 1 and (terminal[0][1][1] != "ret" or not free_in(self.to_ir(terminal[0][1][2]), x[1])):
+            if len(outs) == 1 and (terminal[0][1][1] != "ret" or terminal[0][1][2] == x
+                                   or not free_in(self.to_ir(terminal[0][1][2]), x[1])):
                 # stateless body, one kind of exit: it is taken iff some element takes it
                 def hits(tr):
                     if tr[0] == "br":
@@ -2371,6 +2470,10 @@ class InterpLoops(InterpStmts):  # pylint: disable=too-many-public-methods
                 del cexprs
                 hit = canon_nonempty(Any(lst, ("lam", x[1], hits(tree))))
                 lf = terminal[0][1]
+                if lf[1] == "ret" and lf[2] == x:
+                    # `for x in l: if c(x): return x` — an element that passes (the first one met)
+                    found = Filter(lst, ("lam", x[1], hits(tree)))
+                    return self.fork(hit, st, lambda t: leaf("ret", ("first", found), t), lambda t: self.ex(s.orelse, 0, t, k))
                 if lf[1] == "break":
                     return self.fork(hit, st, k, lambda t: self.ex(s.orelse, 0, t, k))
                 exit_leaf = (lambda t: leaf("ret", self.to_ir(lf[2]), t)) if lf[1] == "ret" else (lambda t: leaf("raise", lf[2], t))
@@ -2551,6 +2654,8 @@ class InterpLoops(InterpStmts):  # pylint: disable=too-many-public-methods
                 per_elem = c if per_elem is None else Ite(cexpr, c, per_elem)
             del total
             add = self.flat(lst, x, per_elem if per_elem is not None else Nil("LComp"))
+            if key[1].kind == "set" and add[0] != "nil" and ty(add) == "LNat":
+                add = ("dedup", add)         # a SET of ids: `add` of an id that is already there changes nothing
             st_out.heap[key[1]] = self.union(before, add)
         cont = k(st_out)
         for kind in sorted({kd for _, kd in raises}, reverse=True):
@@ -2762,8 +2867,34 @@ class Generators(Translator):  # pylint: disable=too-many-public-methods
                      V("ids", "LNat") if ids else NONE, ids)
         tree = self.ex(self.body(fn), 0, State({"self": me}, {}), lambda s: leaf("ret", NONE, s))
         e = canon_nonempty(self.formula_value(tree))
+        e = self.hoist_mapping(e, cls)
         sig = "(G : Grid)" + (" (allowFallback : Bool)" if allow_fallback is None else "") + (" (ids : List Nat)" if ids else "")
         self.defs[lean] = f"/-- `{cls}.generate()` -/\ndef {lean} {sig} : Graph.Formula :=\n  {pr(e)}"
+
+    def hoist_mapping(self, e, cls: str):
+        """The dict a generator builds from its requested ids in a loop of its own (`inv_bat_mapping`) gets a name."""
+        found = []
+
+        def walk(x):
+            if isinstance(x, tuple) and x:
+                if isinstance(x[0], str) and x[0] == "foldl" and x[2] == Nil("CDict") and x[1] == V("ids", "LNat"):
+                    if x not in found:
+                        found.append(x)
+                    return
+                for y in x:
+                    walk(y)
+        walk(e)
+        if not found:
+            return e
+        need(len(found) == 1, f"{cls}: several dict-building loops over the requested ids")
+        name = {"BatteryPowerFormula": "inverterBatteries"}.get(cls, cls[0].lower() + cls[1:] + "Mapping")
+        text = (f"/-- the dict `{cls}.generate()` builds from the requested ids (inverter -> its batteries) -/\n"
+                f"def {name} (G : Grid) (ids : List Nat) : CDict :=\n  {pr(found[0])}")
+        if name in self.defs:
+            need(alpha(self.defs[name]) == alpha(text), f"{cls}: the two variants build different mappings")
+        else:
+            self.defs[name] = text
+        return replace_expr(e, found[0], ("call", name, (K("Grid", "G"), V("ids", "LNat")), "CDict"))
 
     # ------------------------------------------------------------------ dict[Component, …]
     def dict_value(self, v, st: State):
@@ -2917,6 +3048,10 @@ class Generators(Translator):  # pylint: disable=too-many-public-methods
             add = ("tmap", lst, ("lam", x[1], c1[1]))
         elif c1[0] == "tnil":
             add = ("tnil",)
+        if terms0[0] == "tsingle" and lst[0] == "tail" and add[0] == "tmap" and st.known(Not(IsEmpty(lst[1]))) \
+                and terms0[1] == subst(add[2][2], add[2][1], ("first", lst[1])):
+            # first element pushed before the loop, the others inside it:  [t (head l)] ++ (tail l).map t  =  l.map t
+            terms0, add = ("tnil",), ("tmap", lst[1], add[2])
         st_out.heap[bref] = ("bstate", add if terms0 == ("tnil",) else ("tapp", terms0, add) if add != ("tnil",) else terms0,
                              p2 if pend0 == p2 or st.known(Not(IsEmpty(self.base_list(lst)))) else self.maybe(pend0, p2))
         return k(st_out)
@@ -2956,7 +3091,8 @@ class Generators(Translator):  # pylint: disable=too-many-public-methods
             need(isinstance(cfg, tuple) and cfg[0] == "cfg", f"{cls}(…): config")
             return k(GenSelf(cls, cfg[2], cfg[1], cfg[1] != NONE), st)
         if cls == "FallbackFormulaMetricFetcher":
-            (gen,) = args
+            need(len(args) + len(kwargs) == 1 and set(kwargs) <= {"formula_generator"}, "FallbackFormulaMetricFetcher(…): arguments")
+            gen = args[0] if args else kwargs["formula_generator"]
             need(isinstance(gen, GenSelf), "FallbackFormulaMetricFetcher(<not a generator>)")
             return k(("fb", self.fallback_terms(gen, st)), st)
         return super().construct(cls, args, kwargs, st, k)
@@ -2966,6 +3102,11 @@ class Generators(Translator):  # pylint: disable=too-many-public-methods
         `[(id, nones_are_zeros)]`."""
         fn = self.find_method(gen.cls, "generate")
         need(fn is not None, f"{gen.cls}.generate missing")
+        if gen.cls == "BatteryPowerFormula":
+            need(gen.allow_fallback == FALSE and gen.ids_given, "fallback battery formula: config")
+            if "batteryFormulaNoFallback" not in self.defs:
+                self.generator("BatteryPowerFormula", "batteryFormulaNoFallback", True, allow_fallback=FALSE)
+            return ("fbof", ("call", "batteryFormulaNoFallback", (K("Grid", "G"), gen.component_ids), "Formula"))
         tree = self.ex(self.body(fn), 0, State({"self": gen}, dict(st.heap), st.facts), lambda s: leaf("ret", NONE, s))
         return self.formula_value(tree, fallback=True)
 
@@ -3041,6 +3182,10 @@ def generate(repo: pathlib.Path) -> str:
     t.generator("ProducerPowerFormula", "producerFormula", False)
     t.generator("ConsumerPowerFormula", "consumerFormula", False)
     t.generator("BatteryPowerFormula", "batteryFormulaNoFallback", True, allow_fallback=FALSE)
+    t.generator("BatteryPowerFormula", "batteryFormula", True, allow_fallback=TRUE)
+    t.generator("EVChargerPowerFormula", "evFormula", True, allow_fallback=TRUE)
+    t.generator("CHPPowerFormula", "chpFormula", False, allow_fallback=TRUE)
+    t.generator("PVPowerFormula", "pvFormula", True)
     out = ["import Frequenz.Model.Graph", "", "set_option linter.unusedVariables false", "",
            "namespace Extracted.GraphLoops", "open Extracted.Graph",
            "open _root_.Graph (Comp Grid firstComp lastComp memIds subsetIds unionIds CDict)", ""]
